@@ -240,9 +240,132 @@ def oracle_tok(evs, term, cs):
         if o.kind == "n":
             out += notify_deadlock(recs, pending if term.startswith("deadlock") else [], ni, ended)
 
+    # ---- watch: latest value, changes seen, no lost / invented notification ----
+    for wi, o in enumerate(objs):
+        if o.kind == "h":
+            out += watch_oracle(recs, pending if term.startswith("deadlock") else [], wi, o)
+
     # ---- deadlock: every blocked operation must be blocked under tokio's contract too ----
     if term.startswith("deadlock"):
         out += deadlock_oracle(recs, recs_by_done, pending, ended, objs, evs)
+    return out
+
+
+def watch_oracle(recs, pending, wi, o):
+    """tokio's watch contract judged on the implementation's own trace.  An operation occupies the interval
+    [start, done] of trace positions; the judgments are conservative: a result is flagged only when no linearisation of
+    the overlapping operations explains it.
+      * a borrow returns the initial value or a sent value, and never one that was certainly overwritten before the borrow began;
+      * has_changed / changed report a change only if some send may have committed after the receiver's last look, report
+        none only if no send certainly did, and report the channel closed only once every sender is being / has been dropped;
+      * at a deadlock, a receiver blocked in changed() although a send certainly committed after its last look (or every
+        sender is gone) has lost a notification; the same for closed() once every receiver is gone."""
+    out = []
+    init, ntx, nrx = [int(x) for x in o.spec[1:].split(":")]
+    INF = 10 ** 9
+    mine = [r for r in recs if r.args and r.args[0] == wi and r.pre[0] == "w" and r.tag != MISUSE]
+    # committed sends: (start, done or INF, value); a send that failed (no receiver) or left the value alone commits nothing
+    sends = []
+    for r in mine:
+        if r.pre == "ws" and (r.done is None or r.vals[0] == 1):
+            sends.append((r.start, INF if r.done is None else r.done, r.args[2], r))
+        elif r.pre == "wm" and r.args[3] == 1:
+            sends.append((r.start, INF if r.done is None else r.done, r.args[2], r))
+        elif r.pre == "wp":
+            sends.append((r.start, INF if r.done is None else r.done, r.args[2], r))
+    # a pending send has committed only possibly; for "certainly committed" use completed ones
+    done_sends = [x for x in sends if x[1] != INF]
+    tx_drops = [r for r in mine if r.pre == "wx"]
+    all_tx_dropping = lambda pos: sum(1 for r in tx_drops if r.start < pos) >= ntx
+    all_tx_dropped = lambda pos: sum(1 for r in tx_drops if r.done is not None and r.done < pos) >= ntx
+    valid_vals = {init} | {x[2] for x in sends}
+
+    def check_value(r, v, what):
+        if v not in valid_vals:
+            out.append(("watch %d: %s returned %d, which is neither the initial value nor a value sent" % (wi, what, v), None))
+            return
+        # the send that wrote v (values are unique per program); the initial value has no send
+        src = [x for x in sends if x[2] == v]
+        src_done = min([x[1] for x in src], default=-1) if v != init or src else -1
+        if v == init and not src:
+            src_done = -1
+        over = [x for x in done_sends if x[2] != v and x[0] > src_done and x[1] < r.start]
+        if over:
+            out.append(("watch %d: %s returned %d although %d had certainly replaced it before the call began (not the latest value)" % (wi, what, v, over[-1][2]), None))
+
+    # per receiver slot: walk its operations in program order (one body per endpoint)
+    for sl in range(3):
+        ops = sorted([r for r in mine if (r.pre in ("wb", "wu", "wh", "wc", "wf", "wy") and r.args[1] == sl) or (r.pre == "wn" and r.args[2] == sl)],
+                     key=lambda r: r.start)
+        look = (-1, -1) if sl < nrx else None          # interval of the last look (version update)
+        for r in ops:
+            if r.pre == "wn":
+                if r.done is not None:
+                    look = (r.start, r.done)
+                continue
+            if look is None:
+                continue
+            may_changed = any(x[1] > look[0] and x[0] < (INF if r.done is None else r.done) for x in sends)
+            surely_changed = any(x[0] > look[1] and x[1] < r.start for x in done_sends)
+            if r.done is None:
+                if r in pending and r.pre == "wc":
+                    # at a deadlock everything is quiescent: any completed send that began after the last look counts
+                    if any(x[0] > look[1] for x in done_sends):
+                        out.append(("deadlock: watch %d receiver %d is blocked in changed() although a send committed after its last look: a change notification was lost" % (wi, sl), None))
+                    elif all_tx_dropped(r.start):
+                        out.append(("deadlock: watch %d receiver %d is blocked in changed() although every sender had been dropped before the call" % (wi, sl), None))
+                continue
+            if r.pre in ("wb", "wu"):
+                check_value(r, r.vals[0], "borrow" if r.pre == "wb" else "borrow_and_update")
+                if r.pre == "wu":
+                    look = (r.start, r.done)
+            elif r.pre == "wh":
+                c = r.vals[0]
+                if c == 2 and not all_tx_dropping(r.done):
+                    out.append(("watch %d receiver %d: has_changed reports the channel closed while a sender is alive" % (wi, sl), None))
+                if c == 1 and not may_changed:
+                    out.append(("watch %d receiver %d: has_changed reports a change although no send can have committed since its last look" % (wi, sl), None))
+                if c == 0 and surely_changed:
+                    out.append(("watch %d receiver %d: has_changed reports no change although a send committed after its last look" % (wi, sl), None))
+            elif r.pre == "wc":
+                if r.vals[0] == 1:
+                    if not may_changed:
+                        out.append(("watch %d receiver %d: changed() returned Ok although no send can have committed since its last look (invented notification)" % (wi, sl), None))
+                    look = (r.start, r.done)
+                else:
+                    if not all_tx_dropping(r.done):
+                        out.append(("watch %d receiver %d: changed() returned Err while a sender is alive" % (wi, sl), None))
+                    if surely_changed:
+                        out.append(("watch %d receiver %d: changed() returned Err although an unseen value had been sent before the call" % (wi, sl), None))
+            elif r.pre == "wf":
+                if r.vals[0] == 1:
+                    check_value(r, r.vals[1], "wait_for")
+                    if r.vals[1] < r.args[2]:
+                        out.append(("watch %d receiver %d: wait_for(>= %d) returned %d" % (wi, sl, r.args[2], r.vals[1]), None))
+                elif not all_tx_dropping(r.done):
+                    out.append(("watch %d receiver %d: wait_for returned Err while a sender is alive" % (wi, sl), None))
+                look = (r.start, r.done)
+            elif r.pre == "wy":
+                look = None
+    # send fails only when no receiver exists: judged conservatively (all creation-time receivers dropped or dropping, no subscribe since)
+    rx_drops = [r for r in mine if r.pre == "wy"]
+    subs = [r for r in mine if r.pre == "wn"]
+    for r in mine:
+        if r.pre == "ws" and r.done is not None and r.vals[0] == 0:
+            alive = nrx + sum(1 for x in subs if x.start < r.done) - sum(1 for x in rx_drops if x.start < r.done)
+            if alive > 0:
+                out.append(("watch %d: send failed although %d receivers certainly exist" % (wi, alive), None))
+        if r.pre == "wp" and r.done is not None:
+            check_value(r, r.vals[0], "send_replace")
+        if r.pre == "wl" and r.done is None and r in pending:
+            gone = nrx + sum(1 for x in subs if x.start < r.start or x.done is None or x.done > r.start) \
+                - sum(1 for x in rx_drops if x.done is not None and x.done < r.start)
+            if gone <= 0 and not any(x.start > r.start for x in subs):
+                out.append(("deadlock: watch %d sender blocked in closed() although every receiver had been dropped before the call" % wi, None))
+        if r.pre == "wl" and r.done is not None:
+            alive_min = nrx + sum(1 for x in subs if x.done is not None and x.done < r.start) - sum(1 for x in rx_drops if x.start < r.done)
+            if alive_min > 0:
+                out.append(("watch %d: closed() returned while %d receivers certainly exist" % (wi, alive_min), None))
     return out
 
 
